@@ -4,6 +4,7 @@ import (
 	"encoding/json"
 	"fmt"
 
+	cmttypes "github.com/cometbft/cometbft/types"
 	authtypes "github.com/cosmos/cosmos-sdk/x/auth/types"
 	bitcointypes "github.com/goatnetwork/goat/x/bitcoin/types"
 	goatxtypes "github.com/goatnetwork/goat/x/goat/types"
@@ -25,6 +26,8 @@ type Snap struct {
 	Goat    goatxtypes.GenesisState
 	Auth    authtypes.GenesisState
 	RawJSON map[string]json.RawMessage
+	ExpVals []cmttypes.GenesisValidator // validators as ExportAppStateAndValidators reports them
+	ExpHeight int64
 	Export  []byte
 }
 
@@ -48,7 +51,7 @@ func (n *Node) Snapshot() (*Snap, error) {
 	if err != nil {
 		return nil, err
 	}
-	s := &Snap{Height: n.App.LastBlockHeight(), AppHash: n.App.LastCommitID().Hash, Stores: n.StoreHashes(), Export: exp.AppState}
+	s := &Snap{Height: n.App.LastBlockHeight(), AppHash: n.App.LastCommitID().Hash, Stores: n.StoreHashes(), Export: exp.AppState, ExpVals: exp.Validators, ExpHeight: exp.Height}
 	if err := json.Unmarshal(exp.AppState, &s.RawJSON); err != nil {
 		return nil, err
 	}
@@ -82,4 +85,36 @@ func (s *Snap) Validator(cons []byte) *lockingtypes.Validator {
 		}
 	}
 	return nil
+}
+
+// GenesisSnap renders the genesis document as a snapshot of "height 0" (nothing is committed
+// before the first block, so the application itself cannot be asked).
+func (w *World) GenesisSnap() (*Snap, error) {
+	s := &Snap{Height: 0, Stores: map[string]string{}, Export: w.GenState}
+	if err := json.Unmarshal(w.GenState, &s.RawJSON); err != nil {
+		return nil, err
+	}
+	cdc := w.cdc
+	for name, dst := range map[string]interface{ Unmarshal([]byte) error }{} {
+		_, _ = name, dst
+	}
+	if err := cdc.UnmarshalJSON(s.RawJSON["locking"], &s.Locking); err != nil {
+		return nil, err
+	}
+	if err := cdc.UnmarshalJSON(s.RawJSON["relayer"], &s.Relayer); err != nil {
+		return nil, err
+	}
+	if err := cdc.UnmarshalJSON(s.RawJSON["bitcoin"], &s.Bitcoin); err != nil {
+		return nil, err
+	}
+	if err := cdc.UnmarshalJSON(s.RawJSON["goat"], &s.Goat); err != nil {
+		return nil, err
+	}
+	if err := cdc.UnmarshalJSON(s.RawJSON["auth"], &s.Auth); err != nil {
+		return nil, err
+	}
+	for _, v := range w.GenVals {
+		s.ExpVals = append(s.ExpVals, cmttypes.GenesisValidator{Address: v.Address, PubKey: v.PubKey, Power: v.VotingPower})
+	}
+	return s, nil
 }
